@@ -18,7 +18,7 @@ from contracts import tables_frozen as frozen
 
 KNOWN_CAPABILITIES = {"fileinto", "reject", "envelope", "body", "vacation", "vacation-seconds", "copy", "mailbox",
                       "imap4flags", "relational", "regex", "date", "variables", "comparator-i;octet",
-                      "comparator-i;ascii-casemap", "encoded-character", "index", "subaddress"}
+                      "comparator-i;ascii-casemap", "encoded-character", "index", "subaddress", "xext"}
 
 
 class Tok:
